@@ -158,6 +158,15 @@ func ruleR19_3(w *World, r *Report) {
 		var calls []string
 		for _, c := range ai.Callees {
 			calls = append(calls, c.Name())
+			// an arm moved into a new helper: what the helper calls is what the arm calls
+			if u.newFuncObjs[c] {
+				if hd, hp := u.Decl(c); hd != nil && hd.Body != nil {
+					hai := classifyArm(hp.TypesInfo, hd.Body.List)
+					for _, hc := range hai.Callees {
+						calls = append(calls, hc.Name())
+					}
+				}
+			}
 		}
 		if cc.List == nil {
 			deflt = ai.Kind
@@ -178,6 +187,27 @@ func ruleR19_3(w *World, r *Report) {
 			ok = ok && has(calls, wnt)
 		}
 		r.Check(ok, "patchEach/arm "+k, u.Pos(sw.Pos()), strings.Join(want[k], ","), fmt.Sprintf("the arm for %s calls %v, expected %v", k, calls, want[k]))
+	}
+	if deflt == "" {
+		// no default arm: every arm returns and the statement after the switch refuses the rest
+		allReturn := true
+		for _, s2 := range sw.Body.List {
+			if ai := classifyArm(p.TypesInfo, s2.(*ast.CaseClause).Body); !strings.HasPrefix(ai.Kind, "return") {
+				allReturn = false
+			}
+		}
+		ast.Inspect(fd.Body, func(n ast.Node) bool {
+			blk, ok := n.(*ast.BlockStmt)
+			if !ok {
+				return true
+			}
+			for i, st := range blk.List {
+				if st == ast.Stmt(sw) && allReturn {
+					deflt = classifyArm(p.TypesInfo, blk.List[i+1:]).Kind
+				}
+			}
+			return true
+		})
 	}
 	r.Check(strings.HasPrefix(deflt, "return:"), "patchEach/other kinds refused", u.Pos(sw.Pos()), "default returns an error", "an unsupported patch operation kind is not refused ("+deflt+")")
 	// the differ is called without options that add further kinds
